@@ -67,6 +67,9 @@ register('C14', 'TLA+ GlobalCaches spec (two LRUs, capacity 2, name-equal leaves
 register('C19', 'TLA+ Ext spec (IEEE-style extended arithmetic) classifies every derivative entry of TLC-enumerated programs at points on singular sets; derivative callables on all paths checked against the classes',
          'For every enumerated expression TLC evaluates value, gradient and Hessian entries with the extended arithmetic of Ext.tla (rationals, +-inf, NaN, opaque finite values with sign) at every point placing 0 / 1 / -1 on one or all coordinates; compile_gradient, compile_jacobian, CompiledExpression.gradient and compile_hessian must be finite, agree with each other, keep regular entries unchanged and, for the atomic cases the property names, return 0 / +-1e16 with the derived sign.',
          API_NOTE + ' Zeros are unsigned in Ext.tla; entries whose class is an infinity of unknown sign are only required to have magnitude 1e16.', 'DESIGN.md 3 (C19)')
+register('C15', 'TLA+ Api spec: chains over every base-term kind in every association enumerated by TLC, replayed with the four switch thresholds lowered (iterative algorithms) against the denotation; real-depth accumulations against closed forms',
+         'TLC enumerates every pair of base-term kinds x operator and every 3-term chain in every association; with the thresholds of compiler, autodiff, expressions and analysis lowered from outside these small trees take the iterative algorithms, whose variables / degree / gradient / compiled value / compiled gradient are compared with the exact denotation (to which C01-C04 bind the recursive algorithms); accumulations of 399-900 and 1000-20000 terms with default thresholds are checked against closed forms and the vectorised build.',
+         API_NOTE + ' The real-depth part is a differential test against closed forms (the spec contributes the switch rule and the denotation, not an enumeration).', 'DESIGN.md 3 (C15)')
 
 ALL = ['C%02d' % i for i in range(1, 21)]
 
